@@ -137,6 +137,8 @@ def tlc(spec, cfg, scratch, workers=None, env=None, timeout=900, heap="6g",
     m = _RE_STATES.findall(r.out)
     if m:
         r.generated, r.distinct = int(m[-1][0]), int(m[-1][1])
+    mi = re.search(r"Finished computing initial states: (\d+) (?:distinct )?states? generated", r.out)
+    r.init_states = int(mi.group(1)) if mi else 1
     m = _RE_DEPTH.search(r.out)
     if m:
         r.depth = int(m.group(1))
@@ -203,6 +205,31 @@ def validate_traces(spec, cfg, files, scratch, env_extra=None, par=None, timeout
         return list(ex.map(one, files))
 
 
+def validate_collect(spec, cfg, files, scratch, timeout=3000, heap="3g", max_bad=40):
+    """Validate trace batches; every event is consumed by the trace spec, rejected ones are printed
+    as TRACE-BAD <index>.  Returns (events_validated, [(file, index, event_dict)]).
+    Raises Broken if TLC fails or a batch is not consumed completely."""
+    results = validate_traces(spec, cfg, files, scratch, timeout=timeout, heap=heap)
+    total = 0
+    bad = []
+    for f, acc, r in results:
+        if not acc:
+            raise Broken("trace validation failed to run on %s: %s\n%s" % (f, r.error or r.violation, r.out[-1500:]))
+        idx = sorted(set(int(x) for x in re.findall(r'"TRACE-BAD", (\d+)', r.out)))
+        total += max(0, r.distinct - 1)
+        if idx:
+            want = set(idx[:max_bad])
+            with open(f) as fh:
+                for i, line in enumerate(fh, 1):
+                    if i in want:
+                        try:
+                            bad.append((f, i, json.loads(line)))
+                        except ValueError:
+                            bad.append((f, i, {"raw": line[:500]}))
+            total -= len(idx)
+    return total, bad
+
+
 def rejected_detail(r):
     """Summarise why a trace batch was rejected (last matched line etc.)."""
     out = r.out
@@ -248,7 +275,7 @@ def write_config_header(path, real=8, switches=None, default=1):
         f.write("\n".join(L) + "\n")
 
 
-SAN_FLAGS = ["-fsanitize=address,undefined", "-fno-sanitize-recover=all", "-fno-omit-frame-pointer"]
+SAN_FLAGS = ["-fsanitize=address,undefined", "-fno-sanitize=nonnull-attribute", "-fno-sanitize-recover=all", "-fno-omit-frame-pointer"]
 
 
 def cc_build(out, sources, scratch, defs=(), sanitize=True, opt="-O1", real=8, switches=None, default_switch=1,
